@@ -1,13 +1,17 @@
 from props import TB_COMMON
 
 HDR6 = "From TeraV Require Import Model.ParseDepth Corr.CorrC06."
+HDR6L = "From TeraV Require Import Model.Value Model.Lexer Corr.CorrC06Lex."
 CFG = {
     "bin": "c06",
-    "corr": ["CorrC06"],
+    "corr": ["CorrC06", "CorrC06Lex"],
     "harness_timeout": 2400,
     "families": {
         # the property does not fix accept/reject or the AST; the runtime oracle decides
         "skel": {"header": HDR6, "model_fn": "model_skel", "rule": "O"},
+        # where the lexer cuts: token byte ranges are not fixed by the property either; a disagreement means the
+        # slicing model does not describe the lexer (the in-process oracle - no panic, ranges on boundaries - already ran)
+        "slices": {"header": HDR6L, "model_fn": "model_slices", "rule": "O"},
     },
     "rule_text": "runtime oracle (the tie for the part a Gallina model cannot exhibit): every input is registered with add_raw_template and "
                  "rendered with render_str in a child process, once on a 2 MiB thread and once on the 8 MiB main thread, 20 s per input; an input without a result is run again ALONE with 20 x the median time of "
@@ -27,12 +31,31 @@ CFG = {
                  "x prefixes; 16 template names x 7 sources; random splices of corpus templates. Evaluations = inputs x 2 stacks; non-trivial = "
                  "source of at least 8 bytes. skel: token lists of the skeleton grammar (generated documents, truncations, inside-token mutations, "
                  "every nesting construct around its limit, chains) printed as template text: accept/reject, Display parenthesis depth and "
-                 "statement nesting depth of the real parser vs Model.ParseDepth.parse; distinct by token list; non-trivial = at least 8 tokens.",
+                 "statement nesting depth of the real parser vs Model.ParseDepth.parse; distinct by token list; non-trivial = at least 8 tokens. "
+                 "slices: (delimiter set, source) lexed in-process with tera::verif::lex(src, delimiters, false) under catch_unwind (a panic or a "
+                 "token range off a character boundary is an oracle failure); the case carries the token byte ranges or the error class; the "
+                 "checker (Corr/CorrC06Lex.v) requires that the model's ranges (Lexer.lex_spanned) equal them, that every start and end of a "
+                 "real token is 0 or one of the model's slicing offsets (LexerSlices.slice_offsets), and that every slicing offset - also of a "
+                 "run that ends in Err - is a character boundary of that source. Sources, for each of 15 accepted delimiter sets (the 13 of the "
+                 "oracle pool + 2; 4 of them contain 2-byte-character delimiters, one mixes them with ASCII ones and reuses the text characters): every kind of lexer step spelled in those delimiters (11 texts; 28 "
+                 "expressions x 4 marker/whitespace spellings incl. multi-byte string contents, escapes before multi-byte characters, "
+                 "unterminated strings, out-of-range integers, non-ASCII identifiers; 10 tags; 9 raw bodies x 5 spellings incl. unclosed and "
+                 "fake `{% `; 7 comment bodies x 4 incl. unclosed) with one of 5 multi-byte characters (2, 3, 4 bytes, NBSP, a combining mark) "
+                 "directly before and after it (all in thorough, a seeded sample in quick); random documents of 1..5 such items with "
+                 "multi-byte characters in between; every character prefix of some of them; distinct by case term; non-trivial = the source "
+                 "has a multi-byte character and the run is an error or has at least 3 tokens.",
     "trusted_base": TB_COMMON + [
         "axioms: none",
         "the child-process runner of harness/src/bin/c06.rs (start/done markers attribute a dead child to one input; watchdog thread for hangs)",
         "native stack usage is NOT modelled: the ghost counter `native` counts modelled Rust function entries; frame sizes, the recursion of "
-        "compile_expr/compile_node/Drop/Clone on the AST and everything inside the lexer are observed through the runtime oracle only",
+        "compile_expr/compile_node/Drop/Clone on the AST are observed through the runtime oracle only",
+        "the six delimiter strings are valid UTF-8 (hypothesis LexerSlices.delims_utf8 of the boundary theorem): type invariant of the Rust "
+        "`Cow<'static, str>` fields of `Delimiters`; the model's delimiters are byte lists (C06_boundary_needs_utf8_delimiters shows the "
+        "hypothesis is used)",
+        "modelled, not verified: core::str::is_char_boundary / split_at / Index<Range> / get (Model/Report.v: panic or None exactly off a "
+        "character boundary or out of range); strip_prefix, trim_start, trim_end, parse::<f64> cannot cut a str off a boundary (std)",
+        "which expressions of lexer.rs slice the input is read off the source by hand (list in the header of Model/LexerSlices.v); "
+        "tools/source_fingerprint.json re-opens the thorough generators when lexer.rs changes",
         "hooks H3 (tera::verif::parse_expr_display, parse_debug) report what the real parser built",
     ],
     "modelled": ["parsing/parser.rs: inner_parse_expression, parse_expression, parse_expr_bp, parse_ident, parse_subscript, parse_kwargs, "
@@ -40,9 +63,12 @@ CFG = {
                  "(set, block, for, if, filter, break/continue), parse_for_loop, parse_if, parse_set; counters recursion_depth, array_dimension, "
                  "num_left_brackets (+ expr_height, elif_depth of the D11 repair), body_contexts, blocks_seen",
                  "not in the skeleton alphabet: components, include/extends, `?.`/`?[`, the `loop.` rewrite, literal values, spans, messages",
-                 "lexer: not modelled here; Props/C06.v cites C08 (termination and in-bounds ranges of the byte-level model of all of "
-                 "basic_tokenize) and C12 (advance! is total exactly on character boundaries); that the computed offsets are boundaries "
-                 "is not proved anywhere and stays with the runtime oracle (multi-byte streams, 2-byte-character delimiters)"],
+                 "parsing/lexer.rs basic_tokenize: every slicing site (each advance!(n), &s[1..s.len()-1] of lex_string!, "
+                 "&rest.as_bytes()[offset..], &rest[offset..], &rest[body_start..body_end] of the raw loop; rest.get(a..a+2) as the checked "
+                 "slice) as absolute offsets next to the C08 token model (Model/LexerSlices.v); Props/C06.v cites C08 (termination, in-bounds "
+                 "ranges) and C12 (advance! total exactly on character boundaries) and proves that every slicing offset is a character "
+                 "boundary for valid UTF-8 sources and delimiters (Proofs/LexerBoundary.v)",
+                 "delimiters.rs: validate (2 bytes each, distinct starts) + the str type of the fields"],
     "assumptions": ["implementation == model only on the token lists enumerated by the harness",
                     "stack safety holds for the explored inputs on 2 MiB and 8 MiB stacks in the release build of the harness; "
                     "thresholds measured for debug builds are in the C06 notes of the report"],
@@ -55,7 +81,9 @@ MANIFEST = (
     "Gallina skeleton of parser.rs, for every token list: the native call depth of the parser is at most 7*MAX_RECURSION_DEPTH + "
     "MAX_ELIF_DEPTH + 7 whatever the outcome; the AST of every accepted input is at most MAX_EXPRESSION_DEPTH + 2*MAX_RECURSION_DEPTH + "
     "MAX_ELIF_DEPTH + 2 deep, independent of the input length; nesting beyond each limit is the error outcome; the fusion pass never "
-    "indexes out of bounds. For the tree before the D11 repair both bounds are refuted by explicit chains (witness lemmas). The model is "
+    "indexes out of bounds; every offset at which the lexer slices its input is a character boundary, for every accepted (valid UTF-8, "
+    "2-byte) delimiter set and every valid UTF-8 source, so no advance!/index expression of the lexer panics (UTF-8 self-synchronisation; "
+    "byte-level model of all slicing sites tied to the code by token ranges on multi-byte sources). For the tree before the D11 repair both bounds are refuted by explicit chains (witness lemmas). The model is "
     "tied to the code by comparing accept/reject and the observed AST depths on generated token lists, and the two new limits are "
     "re-extracted from parser.rs on every run; the runtime part is observed directly: every input registered in a child process on a "
     "2 MiB and an 8 MiB stack with a time limit.",
